@@ -4,7 +4,7 @@ CONSTANTS
   Schedules = "full"
   Kinds = {"x", "bin", "text", "edge"}
   Fams = {"G", "Gs", "GP", "GPs", "H", "Hs", "W", "GEM", "SP"}
-  Lists = {"default", "full"}
+  Lists = {"default", "full", "altenc"}
   DecSizeStored = FALSE
   Known = {}
 INVARIANT Loop
